@@ -53,6 +53,12 @@ func (v *HashScopeVariables) Get(s context.Scope, name string) (value.Value, err
 	} else if val != nil {
 		return val, nil
 	}
+	// (also holds the tls.client.certificate.* variables, readable in RECV, HASH, DELIVER and LOG)
+	if val, err := GetTCPInfoVariable(v.ctx, name); err != nil {
+		return value.Null, errors.WithStack(err)
+	} else if val != nil {
+		return val, nil
+	}
 	if val, err := GetQuicVariable(v.ctx, name); err != nil {
 		return value.Null, errors.WithStack(err)
 	} else if val != nil {
